@@ -5,6 +5,7 @@
 //! trusted: R15 (deep slices): the eight places in channel.rs where a FundedChannel increments latest_monitor_update_id and builds a ChannelMonitorUpdate (get_update_fulfill_htlc, splice_initial_commitment_signed, commitment_signed_update_monitor, revoke_and_ack, shutdown, maybe_promote_splice_funding, build_commitment_no_status_check, get_shutdown): the increment statement and the `update_id:` expression, verbatim; force_shutdown (id after the last unblocked update) and free_holding_cell_htlcs (id + 1, merged into the next update) are not sliced
 //! trusted: R15 (deep slice): ChannelManager::handle_channel_resumption: the two function-local macros handle_cs! / handle_raa! and the match on commitment_order that invokes them, verbatim (the macro definitions are part of the slice); MessageSendEvent is a two-variant skeleton; channel_ready / tx_signatures / announcement_sigs / forwards handling around it is dropped and not claimed
 //! trusted: R15 (deep slice): ChannelManager::handle_channel_resumption: the statements that decide whether the released update_add_htlcs are returned for decoding, verbatim as a function (UpdateAddHTLC skeleton; the channel stub answers is_connected())
+//! trusted: R15 (deep slice): commitment_signed_update_monitor from `self.context.expecting_peer_commitment_signed = false` to the end of the function, verbatim as a function of the update just built and need_commitment; build_commitment_no_status_check (one more update, next id, nothing held changes), push_ret_blockable_mon_update (returns the update or holds it) are external_body; monitor_updating_paused carries the contract proved for it in this unit; `a.append(&mut b)` is vec_append (R8)
 //! trusted: ChannelManager::handle_monitor_update_res is extracted whole (the logger type parameter instantiated, the startup flag an AtomicFlag stub); handle_new_monitor_update_locked_actions_handled_by_caller: the statements after the Watch call (removal of a completed update from the in-flight list, the defensive panic, the result pair) are sliced as a function of the in-flight list; handle_new_monitor_update_with_status / handle_post_close_monitor_update: the conditions under which the channel is resumed / the blocked actions released (slices)
 //! trusted: R10: `panic!(..)` statements the source reaches on purpose (unrecoverable persistence failure; a Watch that reports Completed while earlier updates are in progress) are calls of a stub that never returns
 //! trusted: R15 (deep slice): get_update_fulfill_htlc_and_commit: the statements that give a preimage update the id of the first blocked update and renumber the blocked ones, verbatim (the looked-up element expression, the id expressions and the loop body are captured); R7: `opt.map(|upd| M).unwrap_or(D)` is written as a match; R6: `for x in v.iter_mut() { B }` is an index loop that copies the element out, runs B on it and writes it back; the blocked queue is a Vec of {update: {update_id}} skeletons
@@ -426,5 +427,74 @@ impl ChannelManager {
 //@end
 pub struct MonitorStub { pub post_close: bool }
 impl MonitorStub { #[verifier::external_body] pub fn no_further_updates_allowed(&self) -> (r: bool) ensures r == self.post_close { unimplemented!() } }
+// ---- commitment_signed_update_monitor, from the built update to the end: the revoke_and_ack is always HELD behind the update, ids stay gap-free ----
+pub mod cs_tail {
+use vstd::prelude::*;
+#[derive(Clone, Copy)] pub enum RAACommitmentOrder { CommitmentFirst, RevokeAndACKFirst }
+pub struct Step { pub id: u64 }
+pub struct ChannelMonitorUpdate { pub update_id: u64, pub updates: Vec<Step> }
+pub struct ChannelState { pub monitor_update_in_progress: bool, pub awaiting_remote_revoke: bool }
+impl ChannelState {
+    #[verifier::external_body] pub fn is_monitor_update_in_progress(&self) -> (r: bool) ensures r == self.monitor_update_in_progress { unimplemented!() }
+    #[verifier::external_body] pub fn is_awaiting_remote_revoke(&self) -> (r: bool) ensures r == self.awaiting_remote_revoke { unimplemented!() }
+}
+pub struct Ctx { pub latest_monitor_update_id: u64, pub expecting_peer_commitment_signed: bool, pub resend_order: RAACommitmentOrder, pub channel_state: ChannelState,
+    pub monitor_pending_revoke_and_ack: bool, pub monitor_pending_commitment_signed: bool, pub monitor_pending_channel_ready: bool }
+pub struct Held { pub id: u64 }
+pub struct LoggerStub {}
+pub struct Chan { pub context: Ctx }
+pub uninterp spec fn own_commitment_steps() -> Seq<Step>;
+impl Chan {
+    // builds our own next commitment: one more monitor update (next id), no effect on what is held
+    #[verifier::external_body] pub fn build_commitment_no_status_check(&mut self, logger: &LoggerStub) -> (r: ChannelMonitorUpdate)
+        requires old(self).context.latest_monitor_update_id < u64::MAX
+        ensures final(self).context.latest_monitor_update_id == old(self).context.latest_monitor_update_id + 1, r.update_id == final(self).context.latest_monitor_update_id, r.updates@ == own_commitment_steps(),
+            final(self).context.monitor_pending_revoke_and_ack == old(self).context.monitor_pending_revoke_and_ack, final(self).context.monitor_pending_commitment_signed == old(self).context.monitor_pending_commitment_signed,
+            final(self).context.monitor_pending_channel_ready == old(self).context.monitor_pending_channel_ready, final(self).context.channel_state == old(self).context.channel_state,
+            final(self).context.expecting_peer_commitment_signed == old(self).context.expecting_peer_commitment_signed
+    { unimplemented!() }
+    // contract proved for the real function above
+    #[verifier::external_body] pub fn monitor_updating_paused(&mut self, resend_raa: bool, resend_commitment: bool, resend_channel_ready: bool, pending_forwards: Vec<Held>, pending_fails: Vec<Held>, pending_finalized_claimed_htlcs: Vec<Held>, logger: &LoggerStub)
+        ensures final(self).context.monitor_pending_revoke_and_ack == (old(self).context.monitor_pending_revoke_and_ack || resend_raa),
+            final(self).context.monitor_pending_commitment_signed == (old(self).context.monitor_pending_commitment_signed || resend_commitment),
+            final(self).context.monitor_pending_channel_ready == (old(self).context.monitor_pending_channel_ready || resend_channel_ready),
+            final(self).context.channel_state.monitor_update_in_progress, final(self).context.channel_state.awaiting_remote_revoke == old(self).context.channel_state.awaiting_remote_revoke,
+            final(self).context.latest_monitor_update_id == old(self).context.latest_monitor_update_id, final(self).context.expecting_peer_commitment_signed == old(self).context.expecting_peer_commitment_signed
+    { unimplemented!() }
+    #[verifier::external_body] pub fn push_ret_blockable_mon_update(&mut self, update: ChannelMonitorUpdate) -> (r: Option<ChannelMonitorUpdate>)
+        ensures final(self).context == old(self).context, r is Some ==> r->Some_0 == update { unimplemented!() }
+//@extract lightning/src/ln/channel.rs :: impl FundedChannel :: fn commitment_signed_update_monitor
+//@slice R15
+    self.context.expecting_peer_commitment_signed = false; $rest:any }
+//@with
+    fn hold_the_revoke_and_ack_behind_the_update(&mut self, mut monitor_update: ChannelMonitorUpdate, need_commitment: bool, logger: &LoggerStub) -> Result<Option<ChannelMonitorUpdate>, ()> {
+        self.context.expecting_peer_commitment_signed = false; $rest }
+//@rw R8 *
+    monitor_update.updates.append(&mut additional_update.updates);
+//@with
+    vec_append(&mut monitor_update.updates, &mut additional_update.updates);
+//@ret r
+//@requires
+    monitor_update.update_id == old(self).context.latest_monitor_update_id, old(self).context.latest_monitor_update_id < u64::MAX,
+//@ensures P C09,C05 after-a-valid-commitment-signed-the-revoke-and-ack-is-held-behind-the-monitor-update-never-sent-directly-and-the-update-keeps-the-next-id-even-when-our-own-commitment-is-merged-into-it
+    r is Ok,
+    final(self).context.monitor_pending_revoke_and_ack,
+    final(self).context.latest_monitor_update_id == old(self).context.latest_monitor_update_id,
+    final(self).context.monitor_pending_commitment_signed == (old(self).context.monitor_pending_commitment_signed || (need_commitment && !old(self).context.channel_state.awaiting_remote_revoke)),
+    !final(self).context.expecting_peer_commitment_signed,
+    r->Ok_0 is Some ==> r->Ok_0->Some_0.update_id == monitor_update.update_id
+        && r->Ok_0->Some_0.updates@ == monitor_update.updates@ + (if need_commitment && !old(self).context.channel_state.awaiting_remote_revoke { own_commitment_steps() } else { Seq::empty() }),
+//@mutant revoke_and_ack_not_held_when_an_update_is_already_in_progress
+    self.context.monitor_pending_revoke_and_ack = true;
+//@with
+    self.context.monitor_pending_revoke_and_ack = false;
+//@mutant merged_update_leaves_a_gap_in_the_ids
+    self.context.latest_monitor_update_id = monitor_update.update_id; monitor_update.updates.append(&mut additional_update.updates); true
+//@with
+    monitor_update.updates.append(&mut additional_update.updates); true
+//@end
+}
+#[verifier::external_body] pub fn vec_append<T>(v: &mut Vec<T>, w: &mut Vec<T>) ensures final(v)@ == old(v)@ + old(w)@, final(w)@.len() == 0 { unimplemented!() }
+}
 }
 fn main() {}
